@@ -78,12 +78,17 @@ impl MkInput for False {
 }
 
 /// Body of every harness instruction: log what was decoded, then CPI "to ourselves" with the decoded set.
-pub fn process_generic<I, S>(accounts: &mut S, run: &RunArgs) -> Result<()>
+///
+/// `S` is the set as `process` sees it, `A` the same set at `'static` (what `MakeCpi` is keyed on); they differ
+/// only for sets with a lifetime parameter (`&'a AccountInfo` fields), whose `CpiAccounts` hold `AccountInfo`
+/// copies and carry the lifetime as a phantom.
+pub fn process_generic<I, S, A>(accounts: &mut S, run: &RunArgs) -> Result<()>
 where
     S: Probe + CpiAccountSet,
-    S::AccountLen: HandleCpiArray,
-    S::ContainsOption: MkInput,
-    I: StarFrameInstruction<Accounts<'static, 'static> = S> + InstructionDiscriminant<HxIxSet> + BorshSerialize + BorshDeserialize,
+    A: CpiAccountSet,
+    A::AccountLen: HandleCpiArray,
+    A::ContainsOption: MkInput,
+    I: StarFrameInstruction<Accounts<'static, 'static> = A> + InstructionDiscriminant<HxIxSet> + BorshSerialize + BorshDeserialize,
 {
     TRACE.with_borrow_mut(|t| {
         t.val = Some(accounts.show().to_string());
@@ -93,7 +98,15 @@ where
     if do_cpi {
         let prog = prog.expect("program info stashed");
         let ix = <I as BorshDeserialize>::deserialize(&mut &data[8..])?;
-        let res = HxSets::cpi::<I, S>(ix, accounts.to_cpi_accounts(), <S::ContainsOption as MkInput>::mk(&prog, run.c)).invoke();
+        let cpi_accounts = accounts.to_cpi_accounts();
+        assert_eq!(
+            (size_of::<S::CpiAccounts>(), align_of::<S::CpiAccounts>()),
+            (size_of::<A::CpiAccounts>(), align_of::<A::CpiAccounts>())
+        );
+        // SAFETY: `A` is `S` with its (phantom) lifetime parameter set to 'static
+        let cpi_static: A::CpiAccounts = unsafe { std::ptr::read((&raw const cpi_accounts).cast::<A::CpiAccounts>()) };
+        std::mem::forget(cpi_accounts);
+        let res = HxSets::cpi::<I, A>(ix, cpi_static, <A::ContainsOption as MkInput>::mk(&prog, run.c)).invoke();
         let class = res_class(res);
         TRACE.with_borrow_mut(|t| match &mut t.cpi {
             Some((c, _)) => *c = class,
@@ -191,11 +204,11 @@ impl<T: DArg> DArg for (T,) {
 // ------------------------------------------------------------------------------- macros
 /// A derived set whose decode argument is `()` (the default generated decode).
 macro_rules! plain_set {
-    ($name:ident, $client:ident { $($f:ident : $t:ty),* $(,)? }) => {
+    ($name:ident $(<$lt:lifetime>)?, $client:ident { $($f:ident : $t:ty),* $(,)? }) => {
         #[derive(AccountSet, Debug)]
-        pub struct $name { $(pub $f: $t),* }
-        impl Probe for $name {
-            type Client = $client;
+        pub struct $name $(<$lt>)? { $(pub $f: $t),* }
+        impl $(<$lt>)? Probe for $name $(<$lt>)? {
+            type Client = $client $(<$lt>)?;
             fn shape() -> Sexp { Sexp::tagged("struct", vec![$(<$t as Probe>::shape()),*]) }
             #[allow(unused_mut, unused_variables)]
             fn client(v: &Sexp) -> Option<Self::Client> {
@@ -213,11 +226,11 @@ macro_rules! plain_set {
 
 /// A derived tuple-struct set (decode argument `()`); fields are given with their index.
 macro_rules! tuple_set {
-    ($name:ident, $client:ident ( $($i:tt : $t:ty),* $(,)? )) => {
+    ($name:ident $(<$lt:lifetime>)?, $client:ident ( $($i:tt : $t:ty),* $(,)? )) => {
         #[derive(AccountSet, Debug)]
-        pub struct $name( $(pub $t),* );
-        impl Probe for $name {
-            type Client = $client;
+        pub struct $name $(<$lt>)? ( $(pub $t),* );
+        impl $(<$lt>)? Probe for $name $(<$lt>)? {
+            type Client = $client $(<$lt>)?;
             fn shape() -> Sexp { Sexp::tagged("struct", vec![$(<$t as Probe>::shape()),*]) }
             #[allow(unused_mut, unused_variables)]
             fn client(v: &Sexp) -> Option<Self::Client> {
@@ -235,14 +248,14 @@ macro_rules! tuple_set {
 
 /// A derived set with a custom decode argument: one argument per field.
 macro_rules! args_set {
-    ($name:ident, $client:ident, $arg:ident { $($f:ident : $t:ty => $a:ty $([$via:ident])?),* $(,)? }) => {
+    ($name:ident $(<$lt:lifetime>)?, $client:ident, $arg:ident { $($f:ident : $t:ty => $a:ty $([$via:ident])?),* $(,)? }) => {
         #[derive(BorshSerialize, BorshDeserialize, Debug, Clone, Copy)]
         pub struct $arg { $(pub $f: $a),* }
         #[derive(AccountSet, Debug)]
         #[decode(arg = $arg)]
-        pub struct $name { $(#[decode(arg = via!($($via)? arg.$f))] pub $f: $t),* }
-        impl Probe for $name {
-            type Client = $client;
+        pub struct $name $(<$lt>)? { $(#[decode(arg = via!($($via)? arg.$f))] pub $f: $t),* }
+        impl $(<$lt>)? Probe for $name $(<$lt>)? {
+            type Client = $client $(<$lt>)?;
             fn shape() -> Sexp { Sexp::tagged("struct", vec![$(<$t as Probe>::shape()),*]) }
             fn client(v: &Sexp) -> Option<Self::Client> {
                 let mut it = v.items("many")?.iter();
@@ -292,6 +305,13 @@ pub trait HxIx: Sized {
 /// The instruction for a set: `{ d: decode arg, r: run args }`, processed by `process_generic`.
 macro_rules! hx_ix {
     ($ix:ident, $set:ty, $darg:ty) => {
+        hx_ix!(@ $ix, $set, $set, $set, $darg);
+    };
+    // a set with a lifetime parameter (`&'a AccountInfo` fields)
+    (lt $ix:ident, $set:ident, $darg:ty) => {
+        hx_ix!(@ $ix, $set<'decode>, $set<'_>, $set<'static>, $darg);
+    };
+    (@ $ix:ident, $acc:ty, $anon:ty, $set:ty, $darg:ty) => {
         #[derive(BorshSerialize, BorshDeserialize, Debug, Clone, InstructionArgs)]
         #[instruction_args(skip_idl)]
         pub struct $ix {
@@ -302,9 +322,9 @@ macro_rules! hx_ix {
         }
         impl StarFrameInstruction for $ix {
             type ReturnType = ();
-            type Accounts<'decode, 'arg> = $set;
+            type Accounts<'decode, 'arg> = $acc;
             fn process(accounts: &mut Self::Accounts<'_, '_>, run_arg: Self::RunArg<'_>, _ctx: &mut Context) -> Result<()> {
-                process_generic::<$ix, $set>(accounts, run_arg)
+                process_generic::<$ix, _, $set>(accounts, run_arg)
             }
         }
         impl HxIx for $ix {
@@ -321,7 +341,7 @@ macro_rules! hx_ix {
                 let Ok(mut ix) = <$ix as BorshDeserialize>::deserialize(&mut payload) else { return Direct::DataErr };
                 let IxArgs { decode, validate, .. } = <$ix as InstructionArgs>::split_to_args(&mut ix);
                 let mut accs = infos;
-                match <$set as AccountSetDecode<_>>::decode_accounts(&mut accs, decode, &mut ctx) {
+                match <$anon as AccountSetDecode<_>>::decode_accounts(&mut accs, decode, &mut ctx) {
                     Err(e) => Direct::DecodeErr(err_class(e)),
                     Ok(mut s) => {
                         let rem = accs.len();
@@ -393,15 +413,17 @@ where
 }
 
 macro_rules! registry {
-    ([$(($set:ident, $ix:ident, $darg:ty)),* $(,)?] [$(($gset:ident, $gix:ident, $gdarg:ty)),* $(,)?] extra $($t:ident),* $(,)?) => {
+    (gen [$(($gset:ident, $gix:ident, $gdarg:ty)),* $(,)?] [$(($set:ident, $ix:ident, $darg:ty)),* $(,)?]
+     lt [$(($lset:ident, $lix:ident, $ldarg:ty)),* $(,)?] extra $($t:ident),* $(,)?) => {
         $(hx_ix!($ix, $set, $darg);)*
+        $(hx_ix!(lt $lix, $lset, $ldarg);)*
         $(hx_ix!($gix, $gset, $gdarg);)*
         #[derive(InstructionSet)]
         #[ix_set(skip_idl)]
-        pub enum HxIxSet { $($ix($ix),)* $($gix($gix),)* $($t($t)),* }
+        pub enum HxIxSet { $($ix($ix),)* $($lix($lix),)* $($gix($gix),)* $($t($t)),* }
         /// the curated family, then the seeded-random generated sets (`gen_sets.rs`)
         pub fn registry() -> Vec<SetEntry> {
-            vec![$(entry::<$ix>(stringify!($set), false),)* $(entry::<$gix>(stringify!($gset), true)),*]
+            vec![$(entry::<$ix>(stringify!($set), false),)* $(entry::<$lix>(stringify!($lset), false),)* $(entry::<$gix>(stringify!($gset), true)),*]
         }
     };
 }
@@ -467,6 +489,15 @@ plain_set!(S42, S42ClientAccounts { a: [InE; 2], o: Option<()>, b: Box<InE>, c: 
 plain_set!(S43, S43ClientAccounts { a: [[AccountInfo; 0]; 3], b: [(); 2], c: [[Sg; 2]; 0], o: Option<Box<[Mu; 0]>> });
 plain_set!(S44, S44ClientAccounts { u: () });
 plain_set!(S45, S45ClientAccounts { o: Option<InE>, p: Option<[Option<AccountInfo>; 0]>, r: Rest<Sg> });
+
+// the by-reference spelling `&'a AccountInfo` (hand-written client / decode / CPI impls of its own), alone, next to
+// the by-value spelling, under modifiers and in every container
+plain_set!(R01<'a>, R01ClientAccounts { a: &'a AccountInfo });
+plain_set!(R02<'a>, R02ClientAccounts { v: AccountInfo, r: &'a AccountInfo, m: Mut<&'a AccountInfo>, s: Signer<&'a AccountInfo>, b: Mut<Box<Signer<&'a AccountInfo>>> });
+plain_set!(R03<'a>, R03ClientAccounts { o: Option<&'a AccountInfo>, b: Box<&'a AccountInfo>, a: [&'a AccountInfo; 2], oa: [Option<&'a AccountInfo>; 2], rest: Rest<&'a AccountInfo> });
+tuple_set!(RT<'a>, RTClientAccounts (0: &'a AccountInfo, 1: AccountInfo, 2: Option<Box<&'a AccountInfo>>));
+plain_set!(R04<'a>, R04ClientAccounts { inner: R01<'a>, t: RT<'a>, bt: Box<RT<'a>>, r: Rest<RT<'a>> });
+args_set!(R05<'a>, R05ClientAccounts, R05Arg { v: Vec<&'a AccountInfo> => (usize, ()), w: Vec<RT<'a>> => [(); 2], z: &'a AccountInfo => () });
 
 // tuple-struct and generic derived account sets
 tuple_set!(TS1, TS1ClientAccounts (0: Sg, 1: Option<Mu>, 2: [AccountInfo; 2]));
@@ -553,6 +584,7 @@ with_generated_sets! { [
     (V06, IxV06, V06Arg), (V07, IxV07, V07Arg), (V08, IxV08, V08Arg), (V09, IxV09, V09Arg), (V10, IxV10, V10Arg),
     (V11, IxV11, V11Arg), (V12, IxV12, V12Arg), (V13, IxV13, V13Arg), (V14, IxV14, V14Arg), (V15, IxV15, V15Arg),
     (V16, IxV16, V16Arg), (V17, IxV17, V17Arg), (V18, IxV18, V18Arg)]
+    lt [(R01, IxR01, ()), (R02, IxR02, ()), (R03, IxR03, ()), (R04, IxR04, ()), (R05, IxR05, R05Arg)]
     extra T01, T02, T03, T04, T05, T06, T07, T08, T09, T10
 }
 pub use crate::tuples::{T01, T02, T03, T04, T05, T06, T07, T08, T09, T10};
